@@ -14,7 +14,6 @@ func init() {
 	verifRegister("VerifC14WriterRoot", VerifC14WriterRoot)
 }
 
-var errVerifRead = errors.New("verif: read refused")
 
 // VerifC14Reader: the reader delivers the first k rows of a well-formed document and then fails with a fresh
 // error; every sequential From-Markdown route must return that error (recognisable with errors.Is).
